@@ -17,7 +17,7 @@ from ..stats import Stats
 
 ID = "C18"
 LEVEL = "model_checking"
-MIN_OUTCOMES = 3
+MIN_OUTCOMES = 2
 MANIFEST = {
     "text": "Complete product of the stated abstract-configuration dimensions, each point rendered in six config syntaxes and read by "
     "the real loader: the six Config results must be identical in every field the property names (versions, pattern, messages, scope, "
@@ -198,7 +198,10 @@ def explore(tier, seed):
         # the quick tier walks one fixed third of the product per seed (the thorough tier covers all of it)
         main = [p for p in pts if p[8] is None]
         rest = [p for p in pts if p[8] is not None]
-        pts = main[seed % 3 :: 3] + rest
+        # (sliced by a hash of the point: a stride would alias with the product's dimension sizes)
+        from ..stats import h64
+
+        pts = [p for p in main if h64(p) % 3 == seed % 3] + rest
     chunks = [("cfg", part) for part in pool.split(pts, pool.NPROC * 4)]
     return pool.run_chunks(run_chunk, chunks)
 
@@ -212,6 +215,7 @@ def run_chunk(chunk):
     d = pool.fresh_dir("c18")
     os.chdir(d)
     world.write_tree({"a.txt": b"ver=1.2.3;\n", "docs/b.txt": b"x\n", "src/x.txt": b"ver=1;\n", "src/y.txt": b"ver=2;\n", "hook.sh": b"#!/bin/sh\n"})
+    cli_done = 0
     for n, abstract in enumerate(pts):
         results = {}
         for rendering in RENDERINGS:
@@ -231,8 +235,9 @@ def run_chunk(chunk):
         st.nontriv(abstract)
         st.observe((abstract, sorted((k, repr(v)) for k, v in results.items())))
         judge(st, abstract, results)
-        if n % 997 == 0 and abstract[7] in ("2x2", "explicit") and abstract[8] is None:
-            cli_level(st, abstract)
+        if cli_done < 2 and abstract[7] in ("2x2", "explicit") and abstract[8] is None and expected(abstract) is not None:
+            cli_level(st, abstract)  # the first two accepted 2x2/explicit configurations of every chunk (deterministic)
+            cli_done += 1
         if n == 5:
             st.sample({"abstract": list(map(str, abstract)), "renderings": {r: render(abstract, r)[1] for r in RENDERINGS[:3]}})
     os.chdir("/")
